@@ -18,6 +18,7 @@ package bytecode
 import (
 	"fmt"
 	"math"
+	"math/big"
 	"math/rand"
 	"strconv"
 	"strings"
@@ -472,6 +473,36 @@ func TestVerifC03(t *testing.T) {
 				}
 			} else if c03ErrClass(err) != "divideByZero" {
 				fails.Write(verifh.Failure{Class: "div-zero-not-reported", What: "integer division by zero not reported", Input: in, Got: got})
+			}
+		}
+
+		// oracle 1b: strict mode, a variable combined with an integer constant of another kind: the
+		// constant adapts only losslessly — accepted iff its value is representable in the variable's
+		// type (Go's rule for untyped constants), otherwise a loss-of-precision error
+		if strict && ((a.form == "v" && b.form == "c") || (a.form == "c" && b.form == "v")) && a.kind != b.kind {
+			vr, cn := a, b
+			if a.form == "c" {
+				vr, cn = b, a
+			}
+
+			cv, _ := new(big.Int).SetString(c03Decimal(cn.kind, cn.val), 10)
+			info := c03KindInfo[vr.kind]
+			lo, hi := big.NewInt(0), new(big.Int).Sub(new(big.Int).Lsh(big.NewInt(1), info.bits), big.NewInt(1))
+
+			if info.signed {
+				lo = new(big.Int).Neg(new(big.Int).Lsh(big.NewInt(1), info.bits-1))
+				hi = new(big.Int).Sub(new(big.Int).Lsh(big.NewInt(1), info.bits-1), big.NewInt(1))
+			}
+
+			fits := cv.Cmp(lo) >= 0 && cv.Cmp(hi) <= 0
+			cls := c03ErrClass(err)
+
+			if fits && cls == "lossOfPrecision" {
+				fails.Write(verifh.Failure{Class: "strict-const-rejected:" + vr.kind, What: "strict mode rejects a constant that is representable in the other operand's type", Input: in, Got: got})
+			}
+
+			if !fits && cls != "lossOfPrecision" {
+				fails.Write(verifh.Failure{Class: "strict-lossy-const-accepted:" + vr.kind, What: "strict mode lets a constant adapt to a type that cannot represent it (silent wrap) instead of raising a loss-of-precision error", Input: in, Got: got})
 			}
 		}
 
